@@ -177,6 +177,61 @@ func shapeMis(inT *spec.T, tgt spec.T, under bool) bool {
 	return false
 }
 
+// typeDiffUnderEmpty: the abstract result type ar and the concrete result type
+// cr differ only in that cr keeps a placeholder below a collection that is
+// known and empty in the concrete input (vals), where ar has a resolved type:
+// the library resolves placeholders from the input type for unknown inputs
+// but not for empty collections.
+func typeDiffUnderEmpty(vals []cty.Value, ar, cr spec.T, under bool) bool {
+	if ar.Equal(cr) {
+		return true
+	}
+	if cr.K == spec.KDynamic {
+		return under
+	}
+	if ar.K != cr.K {
+		return false
+	}
+	switch cr.K {
+	case spec.KList, spec.KSet, spec.KMap:
+		for _, v := range vals {
+			v, _ = v.Unmark()
+			if v.IsKnown() && !v.IsNull() && v.Type().IsCollectionType() && v.LengthInt() == 0 {
+				under = true
+			}
+		}
+		cv, _ := valsAt(vals, "e", 0, "")
+		return typeDiffUnderEmpty(cv, *ar.E, *cr.E, under)
+	case spec.KTuple:
+		if len(ar.Elems) != len(cr.Elems) {
+			return false
+		}
+		for i := range cr.Elems {
+			cv, _ := valsAt(vals, "i", i, "")
+			if !typeDiffUnderEmpty(cv, ar.Elems[i], cr.Elems[i], under) {
+				return false
+			}
+		}
+		return true
+	case spec.KObject:
+		if len(ar.Attrs) != len(cr.Attrs) {
+			return false
+		}
+		for _, ca := range cr.Attrs {
+			aa := attrOf(&ar, ca.Name)
+			if aa == nil {
+				return false
+			}
+			cv, _ := valsAt(vals, "a", 0, ca.Name)
+			if !typeDiffUnderEmpty(cv, aa.T, ca.T, under) {
+				return false
+			}
+		}
+		return true
+	}
+	return false
+}
+
 // unknownMapToOptDyn: somewhere an unknown (not null) map value is converted
 // to an object type that has an optional attribute whose type contains a
 // placeholder.
@@ -251,13 +306,39 @@ func errorCause(err error, in cty.Value, target spec.T) string {
 	return ""
 }
 
+// childIns is childIn over several input types at once; stepping into the
+// members of a collection result also descends into the members of tuples and
+// the attributes of objects (structural inputs converted to collections).
+func childIns(ins []spec.T, kind string, idx int, name string) []spec.T {
+	var out []spec.T
+	for i := range ins {
+		in := &ins[i]
+		if kind == "e" {
+			switch in.K {
+			case spec.KTuple:
+				out = append(out, in.Elems...)
+				continue
+			case spec.KObject:
+				for _, a := range in.Attrs {
+					out = append(out, a.T)
+				}
+				continue
+			}
+		}
+		if c := childIn(in, kind, idx, name); c != nil {
+			out = append(out, *c)
+		}
+	}
+	return out
+}
+
 // typeDiffExplained: the abstract result type ar and the concrete result type
 // cr differ only below attributes that the target declares optional with a
 // type containing a placeholder and that are filled from a map: for an
 // unknown map the library predicts the attribute's type from the map's element
 // type, while a concrete map lacking the key yields a null of the target's
-// (placeholder) type.
-func typeDiffExplained(inT, tgt *spec.T, ar, cr spec.T) bool {
+// (placeholder) type. ins are the input types corresponding to this position.
+func typeDiffExplained(ins []spec.T, tgt *spec.T, ar, cr spec.T) bool {
 	if ar.Equal(cr) {
 		return true
 	}
@@ -266,13 +347,13 @@ func typeDiffExplained(inT, tgt *spec.T, ar, cr spec.T) bool {
 	}
 	switch ar.K {
 	case spec.KList, spec.KSet, spec.KMap:
-		return typeDiffExplained(childIn(inT, "e", 0, ""), childTgt(tgt, "e", 0, ""), *ar.E, *cr.E)
+		return typeDiffExplained(childIns(ins, "e", 0, ""), childTgt(tgt, "e", 0, ""), *ar.E, *cr.E)
 	case spec.KTuple:
 		if len(ar.Elems) != len(cr.Elems) {
 			return false
 		}
 		for i := range ar.Elems {
-			if !typeDiffExplained(childIn(inT, "i", i, ""), childTgt(tgt, "i", i, ""), ar.Elems[i], cr.Elems[i]) {
+			if !typeDiffExplained(childIns(ins, "i", i, ""), childTgt(tgt, "i", i, ""), ar.Elems[i], cr.Elems[i]) {
 				return false
 			}
 		}
@@ -281,15 +362,21 @@ func typeDiffExplained(inT, tgt *spec.T, ar, cr spec.T) bool {
 		if len(ar.Attrs) != len(cr.Attrs) {
 			return false
 		}
+		fromMap := false
+		for _, in := range ins {
+			if in.K == spec.KMap {
+				fromMap = true
+			}
+		}
 		for _, aa := range ar.Attrs {
 			ca := attrOf(&cr, aa.Name)
 			if ca == nil {
 				return false
 			}
-			if ta := attrOf(tgt, aa.Name); ta != nil && ta.Opt && ta.T.HasDynamic() && inT != nil && inT.K == spec.KMap {
+			if ta := attrOf(tgt, aa.Name); ta != nil && ta.Opt && ta.T.HasDynamic() && fromMap {
 				continue
 			}
-			if !typeDiffExplained(childIn(inT, "a", 0, aa.Name), childTgt(tgt, "a", 0, aa.Name), aa.T, ca.T) {
+			if !typeDiffExplained(childIns(ins, "a", 0, aa.Name), childTgt(tgt, "a", 0, aa.Name), aa.T, ca.T) {
 				return false
 			}
 		}
